@@ -43,7 +43,9 @@ def run_check(tier, seed):
     from flumine.strategy.strategy import Strategies
     from flumine.simulation.utils import SimulatedDateTime
     from betfairlightweight.resources.bettingresources import CurrentOrders
-    names = ["", "a", "strategy", "Ünïcødé-ストラテジー", "x" * 200, "with space", "S-1", "name\twith\ncontrol", "€" * 40, "mixedCASE_123"]
+    # (several names made of non-ASCII characters only, and pairs differing only in such characters)
+    names = ["", "a", "strategy", "Ünïcødé-ストラテジー", "x" * 200, "with space", "S-1", "name\twith\ncontrol", "€" * 40, "mixedCASE_123",
+             "突破", "均值回归", "стратегия", "strat-é", "strat-è"]
     seps_valid = ["-", ".", "_", "+", "*", ":", ";", "~", "a", "Z", "0", "9"]
     strategies = []
     for n in names:
@@ -175,6 +177,23 @@ def run_check(tier, seed):
             fconfig.simulated = saved_sim
             sdt.__exit__(None, None, None)
         cases.append({"kind": "unique", "id": "unique_all", "ids": [limbs(i) for i in ids]})
+        # ids of every order of whole simulation runs, replacements included (several orders re-priced in one
+        # package, at one simulated instant)
+        from checks import scenarios as _sc
+        from harness.simdrv import run_scenario as _run
+        sim_ids = []
+        import copy as _copy
+        both = []
+        for scn in [x for x in _sc.family_failed_packages(tier, seed) if "replace" in str(x["strategies"][0]["script"])][:3]:
+            ok = _copy.deepcopy(scn)            # the same multi-order replace packages with the market staying open: every replacement is created
+            ok["id"] += "_open"
+            for u in ok["markets"][0]["updates"]:
+                u["status"] = "OPEN"
+            both.append(ok)
+        for scn in _sc.family_replace_package(tier, seed) + _sc.family_failed_packages(tier, seed)[:6] + both:
+            tr_ = _run(scn, snapshots=False)
+            sim_ids += [o.id for o in tr_["rec"].orders.values()]
+        cases.append({"kind": "unique", "id": "unique_sim_runs", "ids": [limbs(i) for i in sim_ids]})
         # separators: every 1-char string over ASCII + samples, lengths 0 and 2
         seps = []
         cands = [chr(c) for c in range(0, 128)] + ["é", "€", "ス", "", "--", "a-", "~~", "  "]
